@@ -151,6 +151,8 @@ public:
     static const char *names[] = {"out.bin", "b.out", "result", "a.out", "x.bin", "prog", "prog.x.bin", "prog.S.out", "a.bin", ".out", "a.out.tmp", "PROG.X"};
     if (spelling) outName = names[r.below(r.chance(2, 3) ? 5 : 12)];
     if (spelling && r.chance(1, 30)) outName = srcName;       // output path equals the input path
+    // A legal name at the NAME_MAX boundary (251..255 characters): anything the tool derives from it (a temporary, a backup) is not (seeded C14-15).
+    if (spelling && r.chance(1, 20)) outName = std::string(247 + (size_t)r.below(5), (char)('a' + r.below(26))) + ".bin";
     // Pre-existing files.
     auto junk = [&]() { std::string d; size_t n = 1 + (size_t)r.below(40); for (size_t q = 0; q < n; q++) d.push_back((char)r.below(256)); return d; };
     std::string effOut = outName.empty() ? (tool == "xrun" ? "a.bin" : "a.out") : outName;
